@@ -227,6 +227,14 @@ func (w *WebsocketConnection) checkWebsocketMessage(msgType int, data []byte) er
 
 // close the current websocket connection
 func (w *WebsocketConnection) close() {
+	w.closeWithMessage(nil)
+}
+
+// close the current websocket connection, sending a close message to the remote side first if one is provided
+//
+// the connection is marked as closed before the close message is sent, so the reaction
+// of the remote side to it is not reported as a connection error
+func (w *WebsocketConnection) closeWithMessage(closeMessage []byte) {
 	w.shutdownOnce.Do(func() {
 		if w.isConnClosed() {
 			return
@@ -237,6 +245,12 @@ func (w *WebsocketConnection) close() {
 		close(w.closeChannel)
 
 		if w.conn != nil {
+			if closeMessage != nil {
+				w.muxConWrite.Lock()
+				_ = w.conn.WriteMessage(websocket.CloseMessage, closeMessage)
+				w.muxConWrite.Unlock()
+			}
+
 			_ = w.conn.Close()
 		}
 	})
@@ -306,7 +320,8 @@ func (w *WebsocketConnection) writeMessageWithoutErrorHandling(messageType int, 
 func (w *WebsocketConnection) CloseDataConnection(closeCode int, reason string) {
 	// send a close message to the remote side if we have a reason
 	if reason != "" {
-		_ = w.writeMessageWithoutErrorHandling(websocket.CloseMessage, websocket.FormatCloseMessage(closeCode, reason))
+		w.closeWithMessage(websocket.FormatCloseMessage(closeCode, reason))
+		return
 	}
 
 	w.close()
